@@ -14,6 +14,7 @@ use serde_json::json;
 mod packages;
 mod positions;
 mod probes;
+mod filldeps;
 
 struct Ctx {
   urls: Vec<ModuleSpecifier>,
@@ -575,6 +576,10 @@ fn main() {
     serde_json::from_str(&std::fs::read_to_string(path).unwrap()).unwrap();
   if input["world"].get("build_probes").is_some() {
     println!("{}", probes::run());
+    return;
+  }
+  if input["world"].get("fill_deps").is_some() {
+    println!("{}", filldeps::run(&input));
     return;
   }
   if input["world"].get("positions").is_some() {
